@@ -57,7 +57,7 @@ CHECKS = {
    note=TB + BR + "Error LINES are not specified by the interpreter (decided by correspondence and the error oracle); an include error arriving as lookahead can replace the message of a pending array mismatch (C02D_include_error_text) — hence the error direction assumes a run without include errors; when a translated action or table changes, the failing-input search runs against the model over the committed reference translation; known findings C02:string-element-mismatch-line and C02:parser-stack-limit are reproduced by the model.",
    technique='LR soundness and completeness theorems + refinement of the parser to a reference interpreter of the documented grammar, over translated LALR tables (kernel-decided certificates, simulation) in Lean 4; exhaustive-to-bound correspondence against an independent grammar recogniser', ref='§5 C02'),
  'C03': dict(
-   text=("Partial. 62 theorems about the part of the property that is logic. No stray output: C03_no_echo / C03_read_no_echo — for any "
+   text=("Partial. About 120 theorems about the part of the property that is logic. No stray output: C03_no_echo / C03_read_no_echo — for any "
          "bytes, through any include files, yylex over the translated tables never takes flex's default ECHO rule (the only action "
          "that writes to stdout). No process exit: the outcome type of a read has no exit case; C03_actions_known (no unrecognised "
          "scanner/parser action, EOF action and helper macros catalogued); C03_input_override + C03_failing_read (the translated "
@@ -68,7 +68,12 @@ CHECKS = {
          "parser state along every run is < 47), C03_no_error_shift. Bounded recursion: yyparseLoop is the iteration of a one-step "
          "function; C03_stack_bounded (never more than the documented 10000 entries), C03_stack_limit (then 'memory exhausted'). "
          "Container arithmetic for every operation sequence, parametric in the chunk constants: flex's input buffer (C20B_in_bounds, "
-         "Properties/C20Buffer.lean), strbuf (length+len+1 <= capacity, the "
+         "Properties/C20Buffer.lean), bison's parser stacks (BisonStack.lean, Properties/C03Stack.lean: C03S_in_bounds — every store, "
+         "load and relocation copy inside the block current at that moment, for every allocator behaviour; C03S_content / "
+         "C03S_parser_drives — the memory model stays in lock step with Parser.lean's idealised stack along every parser run; "
+         "C03S_growth (200, 400, ... clamped to 10000), C03S_exhausted_iff / C03S_parser_exhausted_iff, C03S_no_leak (every block "
+         "freed exactly once, the automatic arrays never), C03S_nested_lists (4997 nested lists reach the limit), "
+         "C03S_seeded_breaks_all (the off-by-one capacity test refuted in general)), strbuf (length+len+1 <= capacity, the "
          "& ~63 form = arithmetic rounding), strvec, child vectors (store index inside the allocation after any adds/removes), "
          "libconfig_format_double (never more than buflen bytes). Termination (Properties/C03Term.lean): every match consumes >= 1 byte; "
          "C03_no_underflow (along every run a reduction finds more stack entries than it pops: the model's drop/headD never "
